@@ -15,6 +15,16 @@ pub fn rt_init_opts(workers: usize, pool: usize, stack: usize, poll_ns: u64) {
     h.join().unwrap();
 }
 
+/// like rt_init, then `k` more trivial coroutines are spawned and joined one by one: moves the positions of the
+/// global (mpsc, 64 slots per block) and local (spmc, 32 slots) run queues towards a block boundary
+pub fn rt_init_offset(workers: usize, k: usize) {
+    rt_init(workers);
+    for _ in 0..k {
+        let h = go!(|| 1);
+        h.join().unwrap();
+    }
+}
+
 pub const MAX_TRACKED: usize = 256;
 #[allow(clippy::declare_interior_mutable_const)]
 const Z: AtomicU32 = AtomicU32::new(0);
